@@ -70,6 +70,12 @@ type Script struct {
 	// Window, when set, replaces the script by a history of package rxwindow: a burst of requests whose retention timers all fire
 	// while the loop is busy (its timer queue holds 64 expiries); every request made afterwards must be answered
 	Window *rxwindow.Case `json:"window,omitempty"`
+	// AnswerDelayMs: the answering SMF (RetransMs > 0) answers each report request that much later, i.e. after its timer has fired
+	AnswerDelayMs int `json:"answer_delay_ms,omitempty"`
+	// HoldMs > 0 (with RetransMs and AnswerDelayMs): after the burst's report requests have gone out, the loop is held inside a
+	// data-plane call of a Modification for that long - the requests' timers fire meanwhile (its timer queue holds 64), the SMF's
+	// answers arrive, and then the call returns
+	HoldMs int `json:"hold_ms,omitempty"`
 	// Real, when non-empty, replaces the injected ticks by a wall-clock schedule with real tickers (periods of 1..3 s)
 	Real []RealEv `json:"real,omitempty"`
 }
@@ -126,6 +132,17 @@ func firstOwn(frames []string, pkg string) bool {
 	return false
 }
 
+// firstOwnAfterSync is firstOwn that also skips the frames of package sync (a goroutine parked in Mutex.Lock).
+func firstOwnAfterSync(frames []string, pkg string) bool {
+	for _, f := range frames {
+		if strings.HasPrefix(f, "runtime.") || strings.HasPrefix(f, "sync.") || strings.HasPrefix(f, "internal/sync.") {
+			continue
+		}
+		return strings.Contains(f, pkg)
+	}
+	return false
+}
+
 func analyse(dump string) (cycle string, states []string) {
 	var gs []gor
 	for _, blk := range strings.Split(dump, "\n\n") {
@@ -165,6 +182,8 @@ func analyse(dump string) (cycle string, states []string) {
 			g.role = "ticker"
 		case has("simkernel.(*Kernel).serve"):
 			g.role = "kernel"
+		case has("pfcp.(*PfcpServer).NotifyTransTimeout") || has("pfcp.(*TxTransaction)") || has("pfcp.(*RxTransaction)"):
+			g.role = "timer" // a transaction timer's callback
 		default:
 			continue
 		}
@@ -190,6 +209,16 @@ func analyse(dump string) (cycle string, states []string) {
 		if strings.Contains(g.state, "nil chan") {
 			// a channel operation on a nil channel never completes: this goroutine waits for itself
 			add(g.role, g.role)
+		}
+		if g.role == "loop" && (strings.Contains(g.state, "Mutex") || g.state == "semacquire") && firstOwnAfterSync(g.frames, "/internal/pfcp.") {
+			// the loop waits for a lock inside package pfcp; the other parties that take locks of that package while the server
+			// runs are the transaction timers' callbacks: if one of them is parked posting its expiry to the loop, it holds on
+			// to what the loop waits for (confirmed by a second dump like every cycle)
+			for _, o := range gs {
+				if o.role == "timer" && (o.state == "chan send" || o.state == "select") {
+					add("loop", "timer")
+				}
+			}
 		}
 		switch g.state {
 		case "chan send", "select":
@@ -460,6 +489,7 @@ func runScript(s Script) (res Result) {
 		go func() {
 			sock := f.S.Sock(0)
 			buf := make([]byte, 65536)
+			answered := 0
 			for {
 				_ = sock.Conn.SetReadDeadline(time.Now().Add(50 * time.Millisecond))
 				n, _, err := sock.Conn.ReadFromUDP(buf)
@@ -471,8 +501,18 @@ func runScript(s Script) (res Result) {
 					continue
 				}
 				if q, ok := m.(*message.SessionReportRequest); ok {
-					rsp := message.NewSessionReportResponse(0, 0, 1, q.Sequence(), 0, ie.NewCause(ie.CauseRequestAccepted))
-					_ = sock.SendTo(stack.Marshal(rsp), f.S.UPF)
+					rsp := stack.Marshal(message.NewSessionReportResponse(0, 0, 1, q.Sequence(), 0, ie.NewCause(ie.CauseRequestAccepted)))
+					if s.AnswerDelayMs > 0 {
+						delay := time.Duration(s.AnswerDelayMs) * time.Millisecond
+						if s.HoldMs > 0 {
+							// the requests sent last are answered first: their expiries are the ones still waiting for room in the loop's timer queue
+							answered++
+							delay += time.Duration(max(0, 150-answered)) * 100 * time.Microsecond
+						}
+						time.AfterFunc(delay, func() { _ = sock.SendTo(rsp, f.S.UPF) })
+					} else {
+						_ = sock.SendTo(rsp, f.S.UPF)
+					}
 				}
 			}
 		}()
@@ -497,6 +537,19 @@ func runScript(s Script) (res Result) {
 		// "idle" only at the moment of writing: whatever the script does next overlaps with the listener delivering them
 		res.InFlight = s.Burst
 		burst(s.Burst)
+	}
+	if s.HoldMs > 0 {
+		// the burst's report requests are out (listener drained, loop idle again); now the loop disappears into the data plane
+		f.D.K.Flush(10 * time.Second)
+		_ = f.S.Barrier()
+		f.D.K.MainHold.Store(true)
+		send(stack.Op{Kind: "mod", Peer: 0, Sess: 0, Rules: []stack.RuleOp{{Verb: "create", Kind: "QER", ID: 77, QFI: 3}}})
+		for i := 0; i < 50000 && f.D.K.MainHeld.Load() == 0; i++ {
+			time.Sleep(100 * time.Microsecond)
+		}
+		time.Sleep(time.Duration(s.HoldMs) * time.Millisecond)
+		_, _, res.TimerExpiries = f.S.Srv.VerifQueues()
+		f.D.K.MainHold.Store(false)
 	}
 	switch s.Bulk {
 	case "reassoc":
@@ -854,6 +907,10 @@ func account(s Script, r Result) {
 		vcore.E.Exclude("inconclusive")
 		vcore.E.Note(r.Inconclusive)
 	}
+	if s.HoldMs > 0 && r.TimerExpiries >= 64 {
+		vcore.E.Class("timer_queue_full_while_the_loop_was_held_and_late_answers_waiting")
+		vcore.E.NonTrivial(vcore.JSON(s))
+	}
 	if s.Window != nil && r.TimerExpiries > 64 {
 		vcore.E.Class("more_than_64_timer_expiries_while_the_loop_was_busy")
 		vcore.E.NonTrivial(vcore.JSON(s))
@@ -896,6 +953,7 @@ func fixed() []Script {
 		{Name: "burst-idle-600", Sessions: 5, URRs: 1, Periods: 1, Burst: 600, BurstAt: "idle", Tick: "after", Bulk: "none"},
 		{Name: "silent-burst-during-mods", Sessions: 4, URRs: 1, Periods: 1, LatencyUs: 200, Burst: 100, BurstAt: "mods", Mods: 30, Tick: "before", Bulk: "none", Silent: true},
 		{Name: "responses-meet-expiries", Sessions: 20, URRs: 1, Periods: 1, LatencyUs: 200, Burst: 100, BurstAt: "mods", Mods: 40, Tick: "before", Bulk: "none", RetransMs: 1},
+		{Name: "late-answers-meet-blocked-expiries", Sessions: 20, URRs: 1, Periods: 1, Burst: 120, BurstAt: "idle", Tick: "none", Bulk: "none", RetransMs: 40, AnswerDelayMs: 60, HoldMs: 90},
 		{Name: "burst-600-for-one-pdr", Sessions: 3, URRs: 0, Periods: 1, Burst: 600, BurstAt: "idle", BurstOne: true, Tick: "none", Bulk: "none"},
 		{Name: "real-removal-inside-a-failing-tick-of-a-shared-period", QueryErr: true, Watch: true, Real: []RealEv{{AtMs: 0, Kind: "est", Period: 1}, {AtMs: 50, Kind: "est", Period: 1},
 			{AtMs: 400, Kind: "slow", SlowMs: 500}, {AtMs: 1250, Kind: "del", Sess: 0}, {AtMs: 1900, Kind: "slow", SlowMs: 0}}},
@@ -967,6 +1025,12 @@ func gen(t *rapid.T) Script {
 	}
 	if s.Burst == 0 {
 		s.BurstAt = "none"
+	}
+	if s.RetransMs > 0 && rapid.Bool().Draw(t, "late_answers") {
+		s.AnswerDelayMs = rapid.SampledFrom([]int{2, 8, 30}).Draw(t, "answer_delay_ms")
+		if s.BurstAt == "idle" && s.Burst <= 128 && rapid.Bool().Draw(t, "hold") {
+			s.RetransMs, s.AnswerDelayMs, s.HoldMs = 40, 60, 90
+		}
 	}
 	if s.Tick == "inside" && s.Bulk == "reassoc" && rapid.Bool().Draw(t, "slow_tick") {
 		s.TickSlowMs = rapid.SampledFrom([]int{20, 200, 3000}).Draw(t, "tick_slow_ms")
